@@ -195,6 +195,16 @@ class Interp:
             raise Unsupported("binop")
         if isinstance(a, SSet) or isinstance(b, SSet):
             return self.engine.set_binop(self, op, a, b)
+        if isinstance(a, (SObj, SRef)) and isinstance(a.cls, type):
+            # operator overloading on the left operand's class: only through a callee contract of the dunder method
+            dunder = {ast.Add: "__add__", ast.Sub: "__sub__", ast.Mult: "__mul__", ast.FloorDiv: "__floordiv__", ast.Mod: "__mod__"}.get(type(op))
+            for k in inspect.getmro(a.cls) if dunder else ():
+                if dunder in k.__dict__:
+                    h = self.engine.contract.callees.get(k.__dict__[dunder])
+                    if h is not None:
+                        return h(self, [a, b], {})
+                    break
+            raise Unsupported(f"arithmetic operator on an object without a callee contract for {dunder}")
         if isinstance(a, (SList, SListView)) and isinstance(op, ast.Add):
             return self.engine.list_concat(self, a, b)
         if isinstance(op, ast.Add):
